@@ -242,7 +242,7 @@ pub fn gen_program(ch: &Ch, max_items: usize) -> GenProgram {
       let lit = format!("{q}{}{q}", sp.0);
       let trivia = TRIVIA[ch.choose("trivia", TRIVIA.len())];
       // choice 0 = the usual tight spelling
-      let pad = ["", " ", "  ", "\t"][ch.choose("padding_around_literal", 4)];
+      let pad = ["", " ", "  ", "\t", "\n  ", " /* c */ "][ch.choose("padding_around_literal", 6)];
       chosen.push(Chosen { form: f, lit, value: sp.1.to_string(), trivia, pad });
     }
     // leading items first, trailing item last (at most one)
@@ -268,7 +268,8 @@ pub fn gen_program(ch: &Ch, max_items: usize) -> GenProgram {
       let (t, items) = (c.form.build)(&c.lit, &c.value, k);
       // optional white space inside the parentheses of import(...) forms (code,
       // type positions and JSDoc alike) and after `from`
-      let t = if c.pad.is_empty() {
+      // (a block comment cannot sit inside a JSDoc comment)
+      let t = if c.pad.is_empty() || (c.pad.contains("/*") && t.contains("/**")) {
         t
       } else {
         t.replace(&format!("({})", c.lit), &format!("({}{}{})", c.pad, c.lit, c.pad))
